@@ -694,8 +694,17 @@ func (w *w2) failover(op simrt.Op) {
 	w.sim.Probe("c15.failover")
 	// 1. quiesce: no request in flight, members held at the gate
 	w.gate = w.sim.NewFuture("")
-	for i := 0; w.inflight > 0 && i < 2000; i++ {
+	for i := 0; w.inflight > 0 && i < 20000; i++ {
 		simrt.Sleep(time.Millisecond)
+	}
+	if w.inflight > 0 {
+		// a request is still being handled (a handler held back for seconds): the switch procedure below
+		// assumes a quiet coordinator, so this switch is skipped
+		w.sim.Probe("c15.failover-skipped-not-quiet")
+		g := w.gate
+		w.gate = nil
+		g.Set(true)
+		return
 	}
 	old := w.coord
 	old.Stop() // its cleanup loop retires with it; keeps the comparison free of timer ticks
